@@ -113,7 +113,25 @@ fn new_attr(key: &str, raw: &str) -> Attr {
 
 /// one mutation; `None` when it does not apply to this tree
 pub fn mutate(g: &mut G, nodes: &mut Vec<Node>) -> Option<String> {
-    match g.rng.below(14) {
+    match g.rng.below(16) {
+        14 | 15 => {
+            // an attribute SYNTAX error at the end of a start tag (no `=`, no value, unquoted value):
+            // the attribute iterator yields `Err` when it gets there - `Parse` if the parser iterates
+            // that far (always for <line>; for the others only when the wanted key was not found first)
+            let el = *g.rng.pick(&["package", "class", "sourcefile", "method", "line", "counter", "report"]);
+            let p = pick_elem(g, nodes, el, None)?;
+            let (sh, _) = elem_mut(nodes, &p);
+            sh.broken = g.rng.pick(BROKEN_ATTRS).to_string();
+            if g.rng.chance(1, 2) {
+                // ... with the wanted attribute moved behind nothing: drop one so that the iteration goes on
+                let keys: Vec<String> = sh.attrs.iter().map(|a| a.key.clone()).collect();
+                if !keys.is_empty() && g.rng.chance(1, 2) {
+                    let k = g.rng.below(keys.len() as u64) as usize;
+                    sh.attrs.remove(k);
+                }
+            }
+            Some(format!("attrsyntax.{}", el))
+        }
         13 => {
             // cb / mb of 2^63 or more: `vec![true; cb]` / `vec![false; mb]` panic with "capacity
             // overflow" before anything is allocated (the model's `alloc` outcome at cap = isize::MAX).
@@ -325,6 +343,104 @@ pub fn mutate(g: &mut G, nodes: &mut Vec<Node>) -> Option<String> {
             let pos = g.rng.below(sh.attrs.len() as u64 + 1) as usize;
             sh.attrs.insert(pos, new_attr("zz", tok));
             Some(format!("unread_attr.{}", el))
+        }
+    }
+}
+
+/// text after the last attribute that the attribute iterator cannot split (no unbalanced quote:
+/// the tag itself must still end where it ends)
+pub const BROKEN_ATTRS: &[&str] = &[" junk", " x=", " y=unquoted", " z = 7", " k", "\tq=\t"];
+
+/// Mutations that do NOT change what a report says, since /repo ae885a6 (`with_checks(false)`): the
+/// caller compares the result with the meaning of the UNMUTATED document (property oracle).
+/// * a repeated attribute AFTER the first one of its name, on an element whose attributes are looked
+///   up with `get_xml_attribute` (first match wins) - any value, even an unreadable one;
+/// * `<line>`: a repeated `ci`/`cb`/`mb`/`nr` BEFORE the last one of its name (the loop visits every
+///   attribute: the last wins) - with a numeric value, every value is parsed;
+/// * a repeated attribute nobody reads, anywhere;
+/// * an attribute syntax error behind every attribute the parser asks for (never reached), or on a
+///   `<class>` (`sourcefilename` is read with `unwrap_or`: an error is the same as absent).
+pub fn mutate_preserving(g: &mut G, nodes: &mut Vec<Node>) -> Option<String> {
+    match g.rng.below(8) {
+        0 | 1 | 2 => {
+            let specs: &[(&str, &str)] = &[
+                ("package", "name"),
+                ("class", "name"),
+                ("class", "sourcefilename"),
+                ("sourcefile", "name"),
+                ("method", "name"),
+                ("method", "line"),
+                ("counter", "type"),
+                ("counter", "covered"),
+            ];
+            let (el, key) = *g.rng.pick(specs);
+            let p = pick_elem(g, nodes, el, None)?;
+            let (sh, _) = elem_mut(nodes, &p);
+            let i = sh.attrs.iter().position(|a| a.key == key)?;
+            let mut dup = sh.attrs[i].clone();
+            dup.raw = match g.rng.below(5) {
+                0 => dup.raw.clone(),
+                1 => "1".to_string(),
+                2 => "other/Name.java".to_string(),
+                3 => "&bogus;".to_string(),
+                _ => "METHOD".to_string(),
+            };
+            let pos = i + 1 + g.rng.below((sh.attrs.len() - i) as u64) as usize;
+            sh.attrs.insert(pos, dup);
+            if g.rng.chance(1, 4) {
+                // and a third one
+                let mut d3 = sh.attrs[i].clone();
+                d3.raw = "9".to_string();
+                sh.attrs.push(d3);
+            }
+            Some(format!("dup_after_first.{}.{}", el, key))
+        }
+        3 | 4 => {
+            let key = *g.rng.pick(&["ci", "cb", "mb", "nr"]);
+            let p = pick_elem(g, nodes, "line", Some("sourcefile"))?;
+            let (sh, _) = elem_mut(nodes, &p);
+            let last = sh.attrs.iter().rposition(|a| a.key == key)?;
+            let mut dup = sh.attrs[last].clone();
+            dup.raw = g.rng.pick(&["0", "1", "7", "+3", "0042", "4294967295"]).to_string();
+            let pos = g.rng.below(last as u64 + 1) as usize;
+            sh.attrs.insert(pos, dup);
+            Some(format!("dup_before_last.line.{}", key))
+        }
+        5 => {
+            let el = *g.rng.pick(&["package", "class", "sourcefile", "method", "line", "counter", "report"]);
+            let p = pick_elem(g, nodes, el, None)?;
+            let (sh, _) = elem_mut(nodes, &p);
+            const READ: &[&str] = &["name", "sourcefilename", "line", "type", "covered", "ci", "cb", "mb", "nr"];
+            let c: Vec<usize> = (0..sh.attrs.len()).filter(|&i| !READ.contains(&sh.attrs[i].key.as_str())).collect();
+            if c.is_empty() {
+                return None;
+            }
+            let i = c[g.rng.below(c.len() as u64) as usize];
+            let mut dup = sh.attrs[i].clone();
+            if g.rng.chance(1, 2) {
+                dup.raw = "&bogus; <".replace('<', "&lt;");
+            }
+            let pos = g.rng.below(sh.attrs.len() as u64 + 1) as usize;
+            sh.attrs.insert(pos, dup);
+            Some(format!("dup_unread.{}", el))
+        }
+        _ => {
+            let el = *g.rng.pick(&["package", "class", "sourcefile", "method", "counter", "report", "sessioninfo"]);
+            let p = pick_elem(g, nodes, el, None)?;
+            let (sh, _) = elem_mut(nodes, &p);
+            let has = |k: &str| sh.attrs.iter().any(|a| a.key == k);
+            let ok = match el {
+                "package" | "sourcefile" => has("name"),
+                "class" => has("name"),
+                "method" => has("name") && has("line"),
+                "counter" => has("type") && has("covered"),
+                _ => true,
+            };
+            if !ok {
+                return None;
+            }
+            sh.broken = g.rng.pick(BROKEN_ATTRS).to_string();
+            Some(format!("attrsyntax_behind_wanted.{}", el))
         }
     }
 }
